@@ -11,7 +11,7 @@
 From Typ Require Export Sets.Iface SyncMap.Seq.
 Local Open Scope Z_scope.
 
-Definition syncset := mstate.
+Notation syncset := mstate (only parsing).
 
 (* Has: "_, has := s.m.Load(value)" *)
 Definition ss_Has (s : syncset) (value : Z) : syncset * bool :=
